@@ -370,6 +370,13 @@ def _check_removal(prog: Program, run: Run, f: FuncInfo, name: str) -> None:
             if not leaves and iter_is_all_matches and not _is_sliced_to_one(src):
                 multi = True
         else:
+            # the key expression is itself the search: `next(k for k, v in ... if v is removed)`
+            if isinstance(key, ast.Call) and call_name(key) == "next" and key.args and isinstance(
+                    key.args[0], (ast.GeneratorExp, ast.ListComp)) and any(
+                        isinstance(c, ast.Compare) and removed in _names(c) and len(c.ops) == 1
+                        and isinstance(c.ops[0], (ast.Is, ast.Eq))
+                        for g in key.args[0].generators for i_ in g.ifs for c in ast.walk(i_)):
+                sel_ok = True
             # key bound by `key = next(k for k, v in ... if v is removed)` or similar
             for a in walk_no_nested(f.node):
                 if isinstance(a, ast.Assign) and len(a.targets) == 1 and _names(
@@ -407,6 +414,15 @@ def _check_removal(prog: Program, run: Run, f: FuncInfo, name: str) -> None:
         if isinstance(x, ast.For) and any(d[1] is y for d in dels for b in x.body
                                           for y in ast.walk(b)):
             hdrs.append(cfg.node_of(x))
+    # a deletion guarded by "was a name found?" -- the search itself is on every path
+    for n in cfg.nodes:
+        if n.kind == "if" and n.expr is not None and any(
+                isinstance(g, (ast.GeneratorExp, ast.ListComp)) and any(
+                    isinstance(c, ast.Compare) and removed in _names(c)
+                    for gen in g.generators for i_ in gen.ifs for c in ast.walk(i_))
+                for g in ast.walk(n.expr)) and any(
+                    d in cfg.reachable(n.id) for d in del_nodes):
+            hdrs.append(n.id)
     if not cfg.must_pass(0, hdrs + [d for d in del_nodes if not hdrs], EXIT):
         run.violation("C16.R1", f"{CLS}.{name}", "path-skips-name-deletion",
                       f"there is a path through {name} that removes the element from the list "
